@@ -8,6 +8,7 @@
 (*   TableauOK, DensityOK                 (C05)                            *)
 (*   ImplMeasure refines SemMeasure       (C06)                            *)
 (*   ImplExpect = Expect, ImplProjTrace   (C07)                            *)
+(*   ImplEntropy = Entropy                 (C08)                            *)
 (*   ImplPostselect refines post-selection (C14)                           *)
 (***************************************************************************)
 EXTENDS Tableau, TLC
@@ -37,6 +38,7 @@ ProjTraceRefines == \A O \in HermOps :
     /\ TableauOK(t.rows, t.r)
     /\ t.f2 = (IF O \in S0 THEN 2 ELSE IF Neg(O) \in S0 THEN 0 ELSE 1)
     /\ t.f2 # 0 => Grp(t.rows, t.r) = SemMeasure(S0, O, 0).S
+EntropyRefines == \A A \in SUBSET (1..N) : ImplEntropy(rows, r, A) = Entropy(Grp(rows, r), A)
 PostselectRefines == r = 0 => \A O \in HermOps :
     LET t == ImplPostselect(rows, O)  S0 == Grp(rows, 0) IN
     /\ TableauOK(t.rows, 0)
